@@ -238,6 +238,44 @@ def chain_part(rep):
     rep.set("chain_requests", n)
 
 
+def space_case(si, probe_i):
+    """The threshold configured on an action space applies to the requests it builds, whatever the measure: holding 1024 A
+    (12.5% of the account) and nothing of B, a small change of A is skipped, a large one and the opening of B are traded."""
+    from mcx import spacereq as SR
+    thr = 0.03125
+    name, space, measure, frac = SR.spaces(thr)[si]
+    b = SR.broker({"A": 1024.0})
+    nlv = float(b.net_liquidation_value(False))
+    # (new quantity of A, new quantity of B) -> which contracts must be traded
+    qa, qb, want = [(1040.0, 0.0, set()), (2048.0, 0.0, {"A"}), (1040.0, 2048.0, {"B"}), (0.0, 64.0, {"A"}), (1024.0, 0.0, set())][probe_i]
+    if measure == "weight":
+        action = np.array([qa * 128.0 / nlv, qb * 64.0 / nlv])
+    else:
+        action = np.array([qa, qb])
+    try:
+        trades = SR.request(space, action, b).make_trades(b)
+    except Exception as ex:
+        return ["%s: request/make_trades raised %r" % (name, ex)]
+    got = {t.contract.symbol for t in trades}
+    if got != want:
+        return ["%s, holding 1024 A (weight 0.125), target quantities A %r / B %r (imbalance weights %r / %r): traded %s, the threshold rule requires %s"
+                % (name, qa, qb, (qa - 1024.0) * 128.0 / nlv, qb * 64.0 / nlv, sorted(got), sorted(want))]
+    return []
+
+
+def space_part(rep):
+    from mcx import spacereq as SR
+    n = 0
+    for si in range(len(SR.spaces(0.03125))):
+        for pi in range(5):
+            msgs = space_case(si, pi)
+            n += 1
+            if msgs:
+                rep.violation({"part": "space", "space": si, "probe": pi}, msgs[0], group=("space", si))
+    rep.add("evaluations", n)
+    rep.set("requests_built_by_action_spaces", n)
+
+
 def run(tier, **kw):
     rep = Report("C12", tier, LEVEL)
     srcs = sources(tier)
@@ -256,6 +294,7 @@ def run(tier, **kw):
         for case, msg, group in r["violations"]:
             rep.violation(case, msg, group=group)
     chain_part(rep)
+    space_part(rep)
     rep.set("start_states", nstates)
     rep.set("distinct_nontrivial", len(nt))
     rep.set("rule", "one evaluation = one make_trades/rebalance call on a fresh copy of a reachable broker state for one "
@@ -282,6 +321,8 @@ def run(tier, **kw):
 def replay(case, **kw):
     if case.get("part") == "chain":
         return chain_case(tuple(case["case"]), case["alloc"], case["threshold"])[0]
+    if case.get("part") == "space":
+        return space_case(case["space"], case["probe"])
     reset_clock()
     universe, fee = case["universe"], tuple(case["fee"])
     quotes = [tuple(q) for q in case["quotes"]]
